@@ -231,6 +231,9 @@ class Engine(  # pylint:disable=too-few-public-methods
     def dtype(cls, data_type: Any) -> dtypes.DataType:
         """Convert input into a pandas-compatible
         Pandera :class:`~pandera.dtypes.DataType` object."""
+        if PYARROW_INSTALLED and isinstance(data_type, pyarrow.DataType):
+            # a pyarrow-native type is equivalent to its pandas wrapper
+            data_type = pd.ArrowDtype(data_type)
         try:
             return engine.Engine.dtype(cls, data_type)
         except TypeError:
@@ -2047,9 +2050,7 @@ if PYARROW_INSTALLED and PANDAS_2_0_0_PLUS:
         @classmethod
         def from_parametrized_dtype(
             cls,
-            pyarrow_dtype: Union[
-                pyarrow.DataType, pyarrow.FixedSizeBinaryType
-            ],
+            pyarrow_dtype: pyarrow.FixedSizeBinaryType,
         ):
             try:
                 _dtype = cls(length=pyarrow_dtype.byte_width)  # type: ignore
